@@ -133,3 +133,53 @@ def deleteT (a : Arena V) (key : Int) : Option (Arena V × List (AEv V)) := do
 
 end Arena
 end ITree
+
+/-! ### the explicit-stack in-order walk of `create_ordered_list`
+
+`Arena.inorderVals` (in `Model/Arena.lean`) is the recursive reading of the walk. This is the loop as written:
+a `Vec<StackNode>` of `(index, left, right)` triples whose fields are overwritten with `EMPTY_REF` once used
+("to skip next time"); one iteration of `while !stack.is_empty()` per call. `Lemmas/ArenaStack.lean` proves
+that on an arena representing a tree it terminates within `3·size + 1` iterations and yields the values in key
+order — the recursive function's result. -/
+namespace ITree
+variable {V : Type}
+
+structure StackNode where
+  index : Nat
+  left : Nat
+  right : Nat
+  deriving Repr
+
+namespace Arena
+
+def stackNode (a : Arena V) (i : Nat) : Option StackNode := (a.node i).map fun n => ⟨i, n.left, n.right⟩
+
+/-- the `while` loop; the stack's top is the head of the list; `acc` is `list` reversed -/
+def exportLoop : Nat → Arena V → List StackNode → List V → Option (List V)
+  | 0, _, _, _ => none
+  | _+1, _, [], acc => some acc.reverse
+  | fuel+1, a, s :: rest, acc =>
+    if s.left != EMPTY then do
+      -- go down left
+      let c ← a.stackNode s.left
+      exportLoop fuel a (c :: { s with left := EMPTY } :: rest) acc
+    else do
+      let (acc, s) ← if s.index != EMPTY then (a.node s.index).map fun n => (n.ent.val :: acc, { s with index := EMPTY })
+                     else some (acc, s)
+      if s.right != EMPTY then do
+        -- go down right
+        let c ← a.stackNode s.right
+        exportLoop fuel a (c :: { s with right := EMPTY } :: rest) acc
+      else
+        -- go up
+        exportLoop fuel a rest acc
+
+/-- the traversal part of `create_ordered_list` as written -/
+def exportStack (a : Arena V) : Option (List V) :=
+  if a.root == EMPTY then some []
+  else do
+    let s ← a.stackNode a.root
+    exportLoop (3 * a.nodes.size + 2) a [s] []
+
+end Arena
+end ITree
